@@ -46,20 +46,29 @@ impl EventGen for ReuseElement {
         instance_element.eval_attributes(context).inspect_err(|_| {
             context.pop_element();
         })?;
-        if instance_element.name == "g" {
-            // the attributes of a group instance are variables of its content
+        // the attributes of a group / symbol / reuse instance are variables of what it
+        // contains or instantiates, not geometry of its own
+        let scoping = matches!(instance_element.name.as_str(), "g" | "symbol" | "reuse");
+        if scoping {
+            // bounded like any other scope variable
             context
                 .check_scope_vars(&template, &instance_element)
                 .inspect_err(|_| {
                     context.pop_element();
                 })?;
+        } else {
+            instance_element.expand_compound_size();
+            // the instance is placed with its final size: the template's dw / dh included
+            instance_element.resolve_size_delta();
         }
-        instance_element.expand_compound_size();
-        // the instance is placed with its final size: the template's dw / dh included
-        instance_element.resolve_size_delta();
-        let instance_size = instance_element.size(context).inspect_err(|_| {
-            context.pop_element();
-        })?;
+        let instance_size = if instance_element.name == "reuse" {
+            // measured when it is instantiated in turn, with its own variables in scope
+            None
+        } else {
+            instance_element.size(context).inspect_err(|_| {
+                context.pop_element();
+            })?
+        };
 
         // Override 'default' attr values in the target
         for (attr, value) in reuse_element.get_attrs() {
